@@ -3,7 +3,8 @@
    of hash-container enumerations are order-irrelevant.  Clock, environment, terminal and the real hash
    seeds are outside any model: they are covered by repeated-process runs only. *)
 From Coq Require Import Permutation.
-From OAS Require Import Lib.Str Model.Order Proof.Order.
+From Coq Require Import ZArith.
+From OAS Require Import Lib.Str Model.Order Proof.Order Model.Canon Proof.CanonOrder.
 Local Open Scope list_scope.
 
 (* every permutation of the members of an object (distinct keys) parses to the same map — for every
@@ -22,6 +23,13 @@ Theorem C11_marking_order_irrelevant : forall names1 names2 m,
   Permutation names1 names2 -> forall x, mark names1 m x = mark names2 m x.
 Proof. exact marking_order_irrelevant. Qed.
 
+(* the canonical form under which inline schemas are cached and named (CanonicalSchema, Model/Canon.v) is the same for
+   every order of the members of an object with distinctly named members: the cache key, hence the sharing and naming
+   decisions, do not depend on how the document orders its keys *)
+Theorem C11_canonical_member_order : forall l l', Permutation l l' -> NoDup (map fst l) -> norm (JO l) = norm (JO l').
+Proof. exact norm_member_order. Qed.
+
+Check C11_canonical_member_order : forall l l', Permutation l l' -> NoDup (map fst l) -> norm (JO l) = norm (JO l').
 Check C11_btree_perm : forall (A : Type) (l1 l2 : list (string * A)),
   Permutation l1 l2 -> NoDup (map fst l1) -> build l1 = build l2.
 
@@ -31,6 +39,12 @@ Example C11_nonvacuous :
   build [("200", 0); ("2XX", 1); ("default", 2); ("404", 3)] = [("200", 0); ("2XX", 1); ("404", 3); ("default", 2)].
 Proof. vm_compute. repeat split; reflexivity. Qed.
 
+Example C11_canonical_nonvacuous :
+  norm (JO [("type", JS "object"); ("properties", JO [("b", JO [("type", JS "string")]); ("a", JO [("maxLength", JN 3%Z); ("type", JS "string")])])])
+  = norm (JO [("properties", JO [("a", JO [("type", JS "string"); ("maxLength", JN 3%Z)]); ("b", JO [("type", JS "string")])]); ("type", JS "object")]).
+Proof. vm_compute. reflexivity. Qed.
+
+Print Assumptions C11_canonical_member_order.
 Print Assumptions C11_btree_perm.
 Print Assumptions C11_btree_sorted.
 Print Assumptions C11_marking_order_irrelevant.
